@@ -762,6 +762,10 @@ class UnionUnmarshaller(AbstractUnmarshaller[UnionT], tp.Generic[UnionT]):
         Raises:
             ValueError: If `val` cannot be unmarshalled into any member type.
         """
+        # An iterator can only be walked once: the first member to look at it would
+        #   leave nothing for the others.
+        if isinstance(val, tp.Iterator):
+            val = [*val]
         for routine in self.ordered_routines:
             # A member may reject the input with any error, try the next one.
             #   Running out of stack or memory is not a rejection.
